@@ -136,12 +136,33 @@ def lineAfterChecked (line : Bytes) (col : Nat) (content : Bytes) (repl : Bytes)
 def lineAfterCur (line : Bytes) (col : Nat) (content repl : Bytes) : Option Bytes :=
   if Gen.PanicGuards.lineAfterChecked then lineAfterChecked line col content repl else lineAfterOld line col content repl
 
+/-- `&line[a..b]` on a BYTE slice: only the range matters, there is no character-boundary condition -/
+def byteSlice (s : Bytes) (a b : Nat) : Option Bytes :=
+  if a ≤ b ∧ b ≤ s.length then some ((s.take b).drop a) else none
+
+/-- Third shape (repo commit 7807217): the match is looked up in the RAW line, the text before and after it is decoded
+    separately.
+      let raw_end = match_col + content.len();
+      if line.get(match_col..raw_end) == Some(content.as_bytes()) {
+          from_utf8_lossy(&line[..match_col]) + replace + from_utf8_lossy(&line[raw_end..])
+      } else { find() fallback on the decoded line }
+    `none` = panic (the two unchecked byte slices). -/
+def lineAfterRaw (raw : Bytes) (col : Nat) (content repl : Bytes) : Option Bytes :=
+  let rawEnd := col + content.length
+  if byteSlice raw col rawEnd = some content then            -- line.get(..) == Some(..): `get` never panics
+    match byteSlice raw 0 col, byteSlice raw rawEnd raw.length with
+    | some a, some b => some (Utf8.lossy a ++ repl ++ Utf8.lossy b)
+    | _, _ => none
+  else some (Utf8.lossy raw)          -- (fallback branch: `find` returns boundaries; see extractContext_no_panic)
+
 /-- what `generate_hunks` passes: the raw line decoded lossily, the column measured in the raw line -/
 def lineAfterOfRawOld (raw : Bytes) (col : Nat) (content repl : Bytes) : Option Bytes :=
   lineAfterOld (Utf8.lossy raw) col content repl
 
+/-- the code as it is now: whichever of the three shapes the source has -/
 def lineAfterOfRaw (raw : Bytes) (col : Nat) (content repl : Bytes) : Option Bytes :=
-  lineAfterCur (Utf8.lossy raw) col content repl
+  if Gen.PanicGuards.lineAfterRawChecked then lineAfterRaw raw col content repl
+  else lineAfterCur (Utf8.lossy raw) col content repl
 
 /-! ### the same raw column reused: ambiguity/resolver.rs, preview/diff.rs, preview/matches.rs -/
 
